@@ -109,8 +109,8 @@ theorem checkEvs_clean (cs : List Check) (h : ∀ c ∈ cs, c.2.1.clean = true) 
     have : checkEvs (c :: cs) = chk c.1 c.2.1 c.2.2 ++ checkEvs cs := by simp [checkEvs]
     rw [this, cleanL_append, chk_clean _ _ _ (h c (by simp)), ih (fun c' hc' => h c' (by simp [hc']))]; rfl
 
-theorem ownEvs_clean (env : Env) (kw : Kw) (v : J) (ch : List Ev) (hch : cleanL ch = true) :
-    cleanL (ownEvs env kw v ch) = true := by
+theorem ownEvs_clean (env : Env) (kw : Kw) (p : List (String × S)) (v : J) (ch : List Ev) (hch : cleanL ch = true) :
+    cleanL (ownEvs env kw p v ch) = true := by
   cases v with
   | null => simp [ownEvs, cleanL, Ev.clean, Err.clean, nullErr, Frag.fromValue]
   | bool b => exact chk_clean _ _ _ (by simp [typeErr, here, Err.clean, Frag.fromValue])
@@ -135,7 +135,7 @@ theorem ownEvs_clean (env : Env) (kw : Kw) (v : J) (ch : List Ev) (hch : cleanL 
     rcases hc with rfl | rfl | rfl | rfl <;> simp [typeErr, here, Err.clean, Frag.fromValue]
   | obj kvs =>
     simp only [ownEvs, objEvs, cleanL_append, hch, Bool.and_true, Bool.and_eq_true]
-    constructor
+    refine ⟨⟨?_, ?_⟩, chk_clean _ _ _ (by simp [roErr, Err.clean])⟩
     · apply checkEvs_clean
       intro c hc
       simp only [objChecks, List.mem_cons, List.mem_nil_iff, or_false] at hc
@@ -154,11 +154,11 @@ theorem discEvs_clean (kw : Kw) (v : J) : cleanL (discEvs kw v) = true := by
   cases discCheck kw v <;>
     simp [cleanL, Ev.clean, Err.clean, discMissingErr, discNotStringErr, discUnmappedErr, mark, Frag.fromValue]
 
-theorem evCombine_clean (env : Env) (kw : Kw) (a b c : List S) (sc : Bool) (v : J)
+theorem evCombine_clean (env : Env) (kw : Kw) (a b c : List S) (p : List (String × S)) (sc : Bool) (v : J)
     (notEvs : List Ev) (oneSubs anySubs allSubs : List (List Ev)) (childEvs : List Ev)
     (hNot : cleanL notEvs = true) (h1 : cleanLL oneSubs = true) (h2 : cleanLL anySubs = true) (h3 : cleanLL allSubs = true)
     (hch : cleanL childEvs = true) :
-    cleanL (evCombine env kw a b c sc v notEvs oneSubs anySubs allSubs childEvs) = true := by
+    cleanL (evCombine env kw a b c p sc v notEvs oneSubs anySubs allSubs childEvs) = true := by
   unfold evCombine
   split
   · simp [cleanL]
@@ -171,7 +171,7 @@ theorem evCombine_clean (env : Env) (kw : Kw) (a b c : List S) (sc : Bool) (v : 
       · split <;> simp [cleanL, Ev.clean, Err.clean, here, h3, Frag.fromValue]
       · split
         · simp [cleanL]
-        · rw [cleanL_append, ownEvs_clean env kw v childEvs hch]
+        · rw [cleanL_append, ownEvs_clean env kw p v childEvs hch]
           simp only [Bool.and_true]
           exact chk_clean _ _ _ (by simp [here, Err.clean, Frag.fromValue])
 
@@ -223,7 +223,7 @@ theorem reasons_value_free_all (env : Env) :
     intro kw a b c n i p ad v ihn ihc ihb iha ihch
     rw [events.eq_def]
     simp only
-    exact evCombine_clean env kw a b c _ v _ _ _ _ _ (notEvs_clean env n v ihn) ihc ihb iha (childEvs_clean env kw i p ad v ihch)
+    exact evCombine_clean env kw a b c p _ v _ _ _ _ _ (notEvs_clean env n v ihn) ihc ihb iha (childEvs_clean env kw i p ad v ihch)
   case pnil => intro p ad has whole; simp [propsEvs, cleanL]
   case pcons =>
     intro p ad has whole k x r ih1 ih2 ih3
